@@ -112,24 +112,5 @@ Definition read_as_lossy (s : str) : res (relation dversion) := bind (RelParse.r
 Definition read_entry_as_lossy (s : str) : res (list (relation dversion)) := bind (RelParse.entry_from_str s) entry_to_lossy.
 Definition read_field_as_lossy (s : str) : res (list (list (relation dversion))) := bind (RelParse.relations_from_str s) field_to_lossy.
 
-(* ------------------------------------------------------------------ specification: one more side condition *)
-(* The reader theorem of cone C10 is about the grammar of Debian Policy, in which the pieces of a
-   version between colons are non-empty.  debversion (and both readers) also accept "7:1::2",
-   "5::", "7:1:"; for such versions the clause "the lossless reader reads the printed text as the
-   same structure" is not covered by a theorem.  [version_pieces_ok]: no empty piece. *)
-Definition version_pieces_ok (v : dversion) : bool :=
-  forallb (fun p => match p with [] => false | _ :: _ => true end)
-          (split_on 58%N (dv_upstream v ++ match dv_revision v with Some r => 45%N :: r | None => [] end)).
-Definition relation_pieces_ok (r : relation dversion) : bool :=
-  match r_version r with Some (_, v) => version_pieces_ok v | None => true end.
-
-(* The grammar of cone C10 (Debian Policy) also has at least one term inside "[...]" and "<...>",
-   whereas a lossy value may hold Some([]) (printed " []") and an empty profile group (" <>"), which
-   both readers accept.  [relation_policy_ok]: the valid values whose printed form is in that grammar. *)
+(* ------------------------------------------------------------------ helper *)
 Definition nonempty_list {A} (l : list A) : bool := match l with [] => false | _ :: _ => true end.
-Definition relation_policy_ok (r : relation dversion) : bool :=
-  relation_okb r && relation_pieces_ok r
-  && match r_archs r with Some a => nonempty_list a | None => true end
-  && forallb nonempty_list (r_profiles r).
-Definition entry_policy_ok (e : list (relation dversion)) : bool := nonempty_list e && forallb relation_policy_ok e.
-Definition relations_policy_ok (rs : list (list (relation dversion))) : bool := forallb entry_policy_ok rs.
